@@ -57,6 +57,8 @@ def main():
         sid = os.path.basename(d)
         if want and sid not in want:
             continue
+        if not os.path.exists(os.path.join(d, "meta.json")):
+            continue
         meta = json.load(open(os.path.join(d, "meta.json")))
         for prop in meta.get("checks", [meta["property"]]):
             r = subprocess.run([os.path.join(HERE, "tools", "mutcheck.py"), "--patch", os.path.join(d, "patch.diff"), prop, "quick"], stdout=subprocess.PIPE, stderr=subprocess.STDOUT, text=True)
